@@ -11,6 +11,8 @@ def bools : List Bool := [false, true]
 def effsOf2 (r : Rs.M (Unit × List Rs.Eff)) : Option (List Rs.Eff) := match r with | .ok (_, e) => some e | .panic => none
 def effsOf3 (r : Rs.M (Unit × Bool × List Rs.Eff)) : Option (List Rs.Eff) := match r with | .ok (_, _, e) => some e | .panic => none
 
+def effsOf3i (r : Rs.M (Unit × Int × List Rs.Eff)) : Option (List Rs.Eff) := match r with | .ok (_, _, e) => some e | .panic => none
+
 def showEffs (e : Option (List Rs.Eff)) : String := match e with
   | none => "panic"
   | some l => " ".intercalate (l.map fun x => x.callee ++ reprStr x.args)
@@ -92,4 +94,62 @@ def main : IO Unit := do
           if shown < 4 then
             shown := shown + 1
             IO.println s!"DISAGREE if_statement have_else={he} else_starts_ok={ok} gen=[{showEffs g}] model=[{showEffs (some m)}]"
+  -- expressions
+  shown := 0
+  for e in binaryTable do
+    let g := effsOf2 (Fns.parse_binary false e.1)
+    let m := binarySkeleton e.2.2.1 e.2.2.2
+    if g != some m || Fns.rule_precedence e.1 != e.2.1 then
+      n := n + 1
+      IO.println s!"DISAGREE binary operator={Fns.TokenKind.name e.1} level={Fns.Precedence.name (Fns.rule_precedence e.1)} gen=[{showEffs g}] model_level={Fns.Precedence.name e.2.1} model=[{showEffs (some m)}]"
+  for e in unaryTable do
+    let g := effsOf2 (Fns.parse_unary false e.1)
+    if g != some (unarySkeleton e.2) then
+      n := n + 1
+      IO.println s!"DISAGREE unary operator={Fns.TokenKind.name e.1} gen=[{showEffs g}] model=[{showEffs (some (unarySkeleton e.2))}]"
+  if effsOf2 (Fns.parse_and false 7) != some (andSkeleton 7) then
+    n := n + 1
+    IO.println s!"DISAGREE and gen=[{showEffs (effsOf2 (Fns.parse_and false 7))}] model=[{showEffs (some (andSkeleton 7))}]"
+  if effsOf2 (Fns.parse_or false 7 9) != some (orSkeleton 7 9) then
+    n := n + 1
+    IO.println s!"DISAGREE or gen=[{showEffs (effsOf2 (Fns.parse_or false 7 9))}] model=[{showEffs (some (orSkeleton 7 9))}]"
+  if effsOf2 (Fns.parse_dotdot false) != some dotdotSkeleton then
+    n := n + 1
+    IO.println s!"DISAGREE dotdot gen=[{showEffs (effsOf2 (Fns.parse_dotdot false))}] model=[{showEffs (some dotdotSkeleton)}]"
+  -- declarations, scopes, for
+  for b in bools do
+    if effsOf2 (Fns.var_declaration 5 b) != some (varDeclSkeleton 5 b) then
+      n := n + 1
+      IO.println s!"DISAGREE var_declaration has_initialiser={b} gen=[{showEffs (effsOf2 (Fns.var_declaration 5 b))}] model=[{showEffs (some (varDeclSkeleton 5 b))}]"
+  if effsOf2 Fns.expression_statement != some exprStmtSkeleton then
+    n := n + 1
+    IO.println s!"DISAGREE expression_statement gen=[{showEffs (effsOf2 Fns.expression_statement)}] model=[{showEffs (some exprStmtSkeleton)}]"
+  for d in [(1 : Int), 2, 7] do
+    let g := effsOf3i (Fns.end_scope d 99)
+    if g != some (endScopeSkeleton d) then
+      n := n + 1
+      IO.println s!"DISAGREE end_scope scope_depth={d} gen=[{showEffs g}] model=[{showEffs (some (endScopeSkeleton d))}]"
+  for d in [(0 : Int), 1, 7] do
+    let g := effsOf3i (Fns.begin_scope d)
+    if g != some [storeDepth (d + 1)] then
+      n := n + 1
+      IO.println s!"DISAGREE begin_scope scope_depth={d} gen=[{showEffs g}] model=[{showEffs (some [storeDepth (d + 1)])}]"
+    let g := effsOf2 (Fns.define_variable 5 d)
+    if g != some (defineVarSkeleton d) then
+      n := n + 1
+      IO.println s!"DISAGREE define_variable scope_depth={d} gen=[{showEffs g}] model=[{showEffs (some (defineVarSkeleton d))}]"
+  shown := 0
+  for nlocals in [1, 2, 200, 300] do
+    let locals : List (String × Option Int × Bool) := List.replicate nlocals ("x", some 1, false)
+    for ok in bools do
+      for p in errs do
+        let g := match Fns.for_statement locals true locals locals ok 3 (some (40, 2)) 50 p locals locals with
+          | .ok (_, _, e) => some e
+          | .panic => none
+        let m := forSkeleton (nlocals - 1) 3 ok 40 50 p
+        if g != some m then
+          n := n + 1
+          if shown < 4 then
+            shown := shown + 1
+            IO.println s!"DISAGREE for_statement locals={nlocals} add_local_ok={ok} pop_loop={reprStr p} gen=[{showEffs g}] model=[{showEffs (some m)}]"
   IO.println s!"disagreements={n}"
